@@ -63,6 +63,56 @@ fn typed_checks(v: &Value, text: &str, out: &mut CaseOut) {
     typed!(Grid, Value::Grid(_), "Grid");
 }
 
+/// a well-formed value nested `depth` levels deep: lists, dicts, grids (or the three in turn) around a Number
+pub fn wf_chain(kind: &str, depth: usize) -> Value {
+    let mut v = Value::make_number(1.5);
+    for i in 0..depth {
+        let k = if kind == "mix" { ["list", "dict", "grid"][i % 3] } else { kind };
+        v = match k {
+            "list" => Value::List(vec![v, Value::make_str("x")]),
+            "dict" => {
+                let mut d = Dict::new();
+                d.insert("a".into(), v);
+                d.insert("m".into(), Value::Marker);
+                Value::Dict(d)
+            }
+            _ => {
+                let mut d = Dict::new();
+                d.insert("a".into(), v);
+                Value::Grid(Grid { meta: None, columns: vec![Column { name: "a".into(), meta: None }], rows: vec![d], ver: "3.0".into() })
+            }
+        };
+    }
+    v
+}
+
+/// Documents the decoder must reject, the fault sitting INSIDE nested arrays / objects / grid rows (so that the error
+/// unwinds through every container visitor) - decoded `rounds` times on the calling thread.  Whatever the decoder keeps
+/// between calls (a depth counter, a scratch buffer) has seen some thousand aborted containers afterwards; the caller
+/// then decodes well-formed documents on the same thread.
+pub fn rejected_documents(rounds: usize, out: &mut CaseOut) {
+    const BAD: &[&str] = &[
+        r#"[[[{"_kind":"nope"}]]]"#,
+        r#"[1,[2,[3,{"_kind":"number","val":1,"unit":"noSuchUnit"}]]]"#,
+        r#"{"a":[[{"_kind":"ref"}]]}"#,
+        r#"{"_kind":"grid","meta":{"ver":"3.0"},"cols":[{"name":"a"}],"rows":[{"a":[[{"_kind":"date","val":"x"}]]}]}"#,
+        r#"[[[[[[[[1,"#,
+        r#"[[{"_kind":"dict","a":[{"_kind":"time","val":"25:00:00"}]}]]"#,
+        r#"{"a":{"b":{"c":[{"_kind":"coord","lat":"x","lng":1}]}}}"#,
+        r#"[[],[[]],[[[{"_kind":"xstr","type":1,"val":"x"}]]]]"#,
+        r#"[{"_kind":"dateTime","val":"2021-01-01T00:00:00Z","tz":"Nowhere/Land"}]"#,
+        r#"[[[[[[[[[[[[{"_kind":"symbol"}]]]]]]]]]]]]"#,
+    ];
+    for _ in 0..rounds {
+        for b in BAD {
+            if serde_json::from_str::<Value>(b).is_ok() {
+                out.fail("harness", format!("a document meant to be rejected is accepted: {b}"));
+            }
+        }
+    }
+    out.stat("history_of_rejected_documents");
+}
+
 pub fn exec(label: &str, input: &str, out: &mut CaseOut) {
     let v = match vx::parse(input) {
         Some(v) => v,
@@ -70,7 +120,12 @@ pub fn exec(label: &str, input: &str, out: &mut CaseOut) {
     };
     out.nontrivial = true;
     out.stat(&format!("kind:{}", crate::c01::kind_name(&v)));
-    let wf = label.starts_with("wf");
+    // `hist:` cases: the same round trip AFTER a history of rejected documents on this thread
+    let hist = label.starts_with("hist");
+    if hist {
+        rejected_documents(40, out);
+    }
+    let wf = label.starts_with("wf") || hist;
     let text = match serde_json::to_string(&v) {
         Ok(t) => t,
         Err(e) => {
@@ -123,6 +178,20 @@ pub fn exec(label: &str, input: &str, out: &mut CaseOut) {
 pub fn generate(ctx: &mut Ctx) {
     for v in crate::c01::extreme_numbers().into_iter().chain(crate::c01::named_cases()) {
         ctx.case("wf:named", &vx::show(&v));
+    }
+    // round trips that follow a history of rejected documents on the same thread: lists, dicts and grids nested a
+    // few and a few dozen levels deep
+    for depth in [1usize, 2, 5, 20, 40, 60] {
+        for kind in ["list", "dict", "grid", "mix"] {
+            // serde_json refuses text nested deeper than 128: a grid level costs three JSON levels
+            if (kind == "grid" && depth > 20) || (kind == "mix" && depth > 40) {
+                continue;
+            }
+            ctx.case("hist:chain", &vx::show(&wf_chain(kind, depth)));
+        }
+    }
+    for v in crate::c01::named_cases().into_iter().take(12) {
+        ctx.case("hist:named", &vx::show(&v));
     }
     // numbers: the magnitudes the property names
     for x in gen::F64_EDGES.iter().copied().chain([f64::NAN, f64::INFINITY, f64::NEG_INFINITY]) {
